@@ -40,9 +40,6 @@ class Diagonalization(Function):
         if ctx.batch_shape is None:
             q_mat = q_mat.unsqueeze(-3)
             t_mat = t_mat.unsqueeze(-3)
-        if t_mat.ndimension() == 3:  # If we only used one probe vector
-            q_mat = q_mat.unsqueeze(0)
-            t_mat = t_mat.unsqueeze(0)
 
         mins = torch.diagonal(t_mat, dim1=-1, dim2=-2).min(dim=-1, keepdim=True)[0].unsqueeze(-1)
         jitter_val = settings.tridiagonal_jitter.value()
@@ -56,9 +53,7 @@ class Diagonalization(Function):
             ctx._linear_op = linear_op
 
         if ctx.batch_shape is None:
-            q_mat = q_mat.squeeze(1)
-        q_mat = q_mat.squeeze(0)
-        eigenvalues = eigenvalues.squeeze(0)
+            q_mat = q_mat.squeeze(0)
 
         to_save = list(matrix_args) + [q_mat, eigenvalues]
         ctx.save_for_backward(*to_save)
